@@ -286,8 +286,8 @@ impl Check for C12 {
     }
     fn budget(&self, tier: Tier) -> Budget {
         match tier {
-            Tier::Quick => Budget { wall_secs: 60, max_cases: 160, checkpoint_every: 1, workers: 16 },
-            Tier::Thorough => Budget { wall_secs: 600, max_cases: 8_000, checkpoint_every: 1, workers: 16 },
+            Tier::Quick => Budget { wall_secs: 60, max_cases: 3_000, checkpoint_every: 1, workers: 16 },
+            Tier::Thorough => Budget { wall_secs: 900, max_cases: 200_000, checkpoint_every: 1, workers: 16 },
         }
     }
     fn generate(&self, seed: u64, idx: u64, tier: Tier) -> Value {
